@@ -32,6 +32,20 @@ def run(tier, seed):
             wrong = g.node("str", v="w") if rnd.random() < 0.5 else (g.node("bool", v=True) if lam.get("rt") != "Bool" else g.node("int", v=1))
             lam["b"].insert(0, g.node("ret", e=wrong))
             srcs[p["id"]] = gen_prog.render(p)
+    # and a shape where a container's element type is only fixed by an assignment inside a nested block
+    for p in progs:
+        if p["id"] % 5 == 0:
+            g = gen_prog.Gen(0)
+            g.nid = 500000
+            n = g.node
+            V = lambda x: n("var", n=x)
+            elem = n("str", v="item") if p["id"] % 10 == 0 else n("int", v=4)
+            want = "List<Int>" if p["id"] % 10 == 0 else "List<String>"
+            p["funs"].append({"n": "zsum", "ps": ["xs"], "pt": [want], "rt": "Int", "line": 0, "b": [n("mcall", m="len", recv=V("xs"), args=[])]})
+            p["main"] = [n("let", n="zo", e=n("list", xs=[])),
+                         n("if", c=n("bool", v=True), t=[n("set", n="zo", e=n("mcall", m="append", recv=V("zo"), args=[elem]))], f=[], inline=False, **{"else": False}),
+                         n("show", e=n("call", f=V("zsum"), args=[V("zo")]))] + p["main"]
+            srcs[p["id"]] = gen_prog.render(p)
     tres, exp = refrun.ref_expect(progs)
     ck.add_tlc(tres)
     origs = [(p, srcs[p["id"]], exp[p["id"]]) for p in progs if exp[p["id"]]["outcome"] not in ("fuel", "big")]
